@@ -239,7 +239,7 @@ def run_shard(ctx):
                             if ctx.quick and rng.random() < 0.5:
                                 continue
                             cfe = rng.choice([True, False])
-                            opts = dict(min_iter=0, max_iter=5, tol=0.5, failures=failures, errors=errors, catch_first_error=cfe)
+                            opts = dict(min_iter=rng.choice([0, 0, 1, 2, 3]), max_iter=5, tol=0.5, failures=failures, errors=errors, catch_first_error=cfe)
                             scripts = random_scripts(rng, n, q, fault)
                             for p in range(n):
                                 if p != q:
